@@ -347,12 +347,16 @@ ROOTS = [['SC', None, None, [True, True], '', None], ['SC', None, None, [True, T
          ['SC', None, 'tag:yaml.org,2002:str', [False, True], '', None], ['SC', None, '!t', [False, False], '', None], ['SC', None, None, [True, True], 'a', None],
          ['SC', None, None, [True, True], 'a\n\n', '|'], ['SC', None, None, [True, True], 'a\n\n', '>'], ['SC', None, None, [True, True], 'a\n', '|'], ['SC', None, None, [True, True], '---', None],
          ['SC', None, None, [True, True], '...', None], ['SC', None, None, [True, True], 'a\n...\nb', None], ['SC', 'x', None, [True, True], '', None], ['SC', None, None, [True, True], '# c', None],
+         ['SC', None, '!bar', [False, False], 'v', None], ['SC', None, 'tag:yaml.org,2002:int', [False, False], '1', "'"], ['SC', None, 'tag:example.com,2000:app/foo', [False, False], 'w', None],
+         ['SC', None, 'tag:other.org,2002:str', [False, False], 'q', None], ['SC', None, '!my-own', [False, False], 'o', None], ['SC', None, 'tag:example.com,2000:x', [False, False], 'e', None],
          ['SC', None, None, [True, True], '%YAML 1.1', None], ['SC', None, None, [True, True], 'a b c d e f g h', None], ['SC', None, None, [True, True], '\n', None]]
 
 
 def gen_event_doc(r):
     """events of one document (without stream start/end)"""
-    tags = r.choice([None, None, None, {'!e!': 'tag:example.com,2000:'}])
+    # every document carries its own directives: handles (also the redefined '!' and '!!') end with the document
+    tags = r.choice([None, None, None, None, {'!e!': 'tag:example.com,2000:'}, {'!': 'tag:example.com,2000:app/'}, {'!!': 'tag:other.org,2002:'}, {'!': '!my-'},
+                     {'!e!': 'tag:other.org,2002:'}])
     version = r.choice([None, None, None, [1, 1]])
     out = [['DS', r.random() < 0.35, version, tags]]
     c = r.random()
